@@ -84,7 +84,7 @@ def slice_forward(a:np.ndarray, s:tuple):
 
 def slice_backward(grad:np.ndarray, a_shape:tuple, s:tuple):
     grad_a = np.zeros(a_shape, dtype=grad.dtype)
-    grad_a[s] = grad
+    np.add.at(grad_a, s, grad) # accumulate: an index list may select the same element several times
     return grad_a
 
 # **********************************
